@@ -2,8 +2,10 @@
    Property theorems only (generated from C07.in by bin/mkprop).
    [rfc_image] (coq/Spec/Rfc.v) is the independent encoder: header V=2 | P | count, PT, length in words
    minus one; big-endian fields; length-prefixed text; SDES chunks null-terminated and zero-filled;
-   trailing padding of zeros ending in the count.  It shares nothing with the model's writers. *)
-From RtcpV Require Import Proofs.Members.
+   trailing padding of zeros ending in the count.  It shares nothing with the model's writers.
+   [in_window p x]: x is one of p .. p+16, the numbers a word with PID p can name without wrapping past
+   65535 (the property's "strictly increasing" words). *)
+From RtcpV Require Import Proofs.Members Proofs.NackMin.
 
 (* the n bytes any accepted builder writes are exactly rfc_image, for packets, third-party writers and
    nested compounds *)
@@ -60,3 +62,17 @@ Check C07_fir_map_meaning :
     NoDup (keys (rfc_fir_map adds)) /\
     (forall k v, In (k, v) (rfc_fir_map adds) <-> rfc_fir_lookup adds k = Some v).
 Print Assumptions C07_fir_map_meaning.
+
+(* any list of words whose windows cover the requested set has at least as many words as the encoder writes *)
+Theorem C07_nack_words_are_as_few_as_possible :
+  forall (fuel : nat) (l : list N) (ws : list (N * N)),
+    length l <= fuel -> asc l ->
+    (forall x, In x l -> exists w, In w ws /\ in_window (fst w) x) ->
+    length (rfc_nack_words fuel l) <= length ws.
+Proof. exact nack_words_minimal. Qed.
+Check C07_nack_words_are_as_few_as_possible :
+  forall (fuel : nat) (l : list N) (ws : list (N * N)),
+    length l <= fuel -> asc l ->
+    (forall x, In x l -> exists w, In w ws /\ in_window (fst w) x) ->
+    length (rfc_nack_words fuel l) <= length ws.
+Print Assumptions C07_nack_words_are_as_few_as_possible.
